@@ -69,6 +69,7 @@ package mvt
 //@   requires gd.iter != nil && gd.used >= 0
 //@   loop 1: invariant gd.iter == old(gd.iter) && gd.iter != nil && gd.used >= 0
 //@   loop 1: invariant (len(mp) == 0 || len(p) >= 1) && (mp == nil || fresh(mp)) && (p == nil || fresh(p))
+//@   loop 1: invariant forall k :: 0 <= k && k < len(mp) ==> mp[k].ref != p.ref || p.ref == 0
 //@   loop 1: invariant len(mp) >= 1 ==> orb.Ring.Orientation(p[0]) == orb.CCW
 //@   loop 1: invariant forall k :: 1 <= k && k < len(mp) ==> len(mp[k]) >= 1 && orb.Ring.Orientation(mp[k][0]) == orb.CCW
 //@   ensures result1 == nil && istype(result0, orb.MultiPolygon) ==> (forall k :: 1 <= k && k < len(as(result0, orb.MultiPolygon)) ==> len(as(result0, orb.MultiPolygon)[k]) >= 1 && orb.Ring.Orientation(as(result0, orb.MultiPolygon)[k][0]) == orb.CCW)
